@@ -8,7 +8,16 @@ use std::sync::atomic::{AtomicPtr, AtomicUsize, Ordering};
 const MAX: usize = 64;
 static CASE_PTR: [AtomicPtr<u8>; MAX] = [const { AtomicPtr::new(std::ptr::null_mut()) }; MAX];
 static CASE_LEN: [AtomicUsize; MAX] = [const { AtomicUsize::new(0) }; MAX];
+static STEP: [AtomicUsize; MAX] = [const { AtomicUsize::new(0) }; MAX];
 static PATH: AtomicPtr<u8> = AtomicPtr::new(std::ptr::null_mut());
+
+/// Record the 1-based step the current worker is executing (0 = outside any step).
+pub fn set_step(step: usize) {
+    let slot = SLOT.try_with(|s| s.get()).unwrap_or(usize::MAX);
+    if slot < MAX {
+        STEP[slot].store(step, Ordering::Relaxed);
+    }
+}
 
 thread_local! {
     static SLOT: Cell<usize> = const { Cell::new(usize::MAX) };
@@ -41,6 +50,20 @@ extern "C" fn handler(sig: libc::c_int) {
                 libc::write(fd, head.as_ptr() as *const _, head.len());
                 let digits = [b'0' + (sig / 10) as u8, b'0' + (sig % 10) as u8];
                 libc::write(fd, digits.as_ptr() as *const _, 2);
+                let st = b", \"step\": ";
+                libc::write(fd, st.as_ptr() as *const _, st.len());
+                let mut step = if slot < MAX { STEP[slot].load(Ordering::Relaxed) } else { 0 };
+                let mut buf = [b'0'; 20];
+                let mut i = buf.len();
+                loop {
+                    i -= 1;
+                    buf[i] = b'0' + (step % 10) as u8;
+                    step /= 10;
+                    if step == 0 {
+                        break;
+                    }
+                }
+                libc::write(fd, buf.as_ptr().add(i) as *const _, buf.len() - i);
                 let mid = b", \"replay\": ";
                 libc::write(fd, mid.as_ptr() as *const _, mid.len());
                 let mut wrote = false;
